@@ -207,9 +207,9 @@ def show(n):
         if b[0] == "*":
             return "%s->%s" % (show(b[1]), n[2])
         return "%s.%s" % (show(b), n[2])
-    if t == "*":
+    if t == "*" and len(n) == 2:
         return "*%s" % show(n[1])
-    if t == "&":
+    if t == "&" and len(n) == 2:
         return "&%s" % show(n[1])
     if t == "[]":
         return "%s[%s]" % (show(n[1]), show(n[2]))
